@@ -20,5 +20,5 @@ print("|------|----------|-------|-------------------|-----------|------|")
 import re
 for d in sorted(glob.glob("/verif/seeded/*/meta.json")):
     m = json.load(open(d))
-    hits = sorted(set(re.search(r"\[(\w+) ", h).group(1) for h in m["detection"]["reports"] if re.search(r"\[(\w+) ", h)))
+    hits = sorted(set(re.search(r"\[([\w@]+) ", h).group(1) for h in m["detection"]["reports"] if re.search(r"\[([\w@]+) ", h)))
     print(f"| {m['id']} | {m['property']} | {', '.join(m['files'])} | {m['needs_to_manifest']} | {' '.join(hits) if m['detected'] else 'no new report'} | {m.get('note','')} |")
